@@ -321,6 +321,10 @@ def strata(tier, seed):
         for spike in (2.5, -2.5, 3.0, -3.0, 1.5):
             for corner in ('hi', 'lo'):
                 cs.append(dict(shape=sh, pat='plateau', spike=spike, corner=corner, ranks=[], seed=seed))
+    # one long mode next to short ones (the first / the last mode much larger than rank + 10: defaults of inner helpers would bind there)
+    for sh, rk in (([32, 3], [1, 3, 1]), ([3, 32], [1, 3, 1]), ([24, 2, 2], [1, 2, 2, 1]), ([2, 2, 24], [1, 2, 2, 1]), ([40, 2], [1, 2, 1])):
+        for pat in ('gen', 'intA'):
+            cs.append(dict(shape=sh, ranks=rk, pat=pat, seed=seed, scaled=False))
     yield Stratum('tt optimum search', cs, 'tensor', size=len(cs), chunk=4, bounds={'k': '1..N+1 (N<=16) else {1,2,3,N,N+1}'})
     qs = []
     for d in (1, 2, 3) if tier != 'quick' else (2, 3):
